@@ -479,8 +479,10 @@ class DiffXReader(object):
 
         try:
             content = fp.read(length)
-        except OverflowError:
-            # The length is larger than anything a stream could hold.
+        except (MemoryError, OverflowError):
+            # The length is larger than anything a stream could hold (or,
+            # for streams that allocate the whole buffer up front, than can
+            # be allocated).
             raise DiffXParseError(
                 'The length "%s" is too large' % length,
                 linenum=self._linenum)
